@@ -89,6 +89,77 @@ def _impl_sig(h):
     return out, (a.kwarg.arg if a.kwarg else None)
 
 
+def v_rule(ctx, rep, rule="C17.V"):
+    # ---- V
+    rep.rules[rule] = "exec template order; validate_attrs rejects unknown names"
+    b = ctx.p.find_function("MethodBuilder.build")
+    execs = [n for n in walk_own(b.node) if isinstance(n, ast.Call) and ast.unparse(n.func) == "exec"]
+    bad = []
+    if not execs:
+        bad.append("exec template not found")
+    else:
+        from .base import with_callees
+        from .c16 import _guards_of
+        tmpl_fn, js = b, [n for n in ast.walk(execs[0]) if isinstance(n, ast.JoinedStr)]
+        if not js:      # the source text may be rendered by a private method of the builder
+            for g_ in with_callees(ctx.p, b, 1):
+                cand = [n for n in ast.walk(g_.node) if isinstance(n, ast.JoinedStr) and "return implementation(" in ast.unparse(n)]
+                if cand and g_ is not b:
+                    tmpl_fn, js = g_, cand
+        flat = []
+        for part in (js[0].values if js else []):
+            if isinstance(part, ast.Constant):
+                flat.append(("text", part.value))
+            else:
+                src_ = ast.unparse(part.value)
+                if isinstance(part.value, ast.Name):
+                    # a placeholder variable: reconstruct "<text> if <guards> else ''" from its assignments
+                    asg = [n for n in walk_own(tmpl_fn.node) if isinstance(n, ast.Assign) and len(n.targets) == 1 and ast.unparse(n.targets[0]) == part.value.id
+                           and isinstance(n.value, ast.Constant) and isinstance(n.value.value, str)]
+                    pos_ = [n for n in asg if "validate_attrs(kwargs)" in n.value.value]
+                    if pos_ and all(n.value.value == "" for n in asg if n not in pos_):
+                        src_ = "'validate_attrs(kwargs)' if " + " and ".join(_guards_of(tmpl_fn.node, pos_[0])) + " else ''"
+                flat.append(("expr", src_))
+        i_val = next((i for i, p in enumerate(flat) if p[0] == "expr" and "validate_attrs(kwargs)" in p[1]), None)
+        i_impl = next((i for i, p in enumerate(flat) if p[0] == "text" and "return implementation(" in p[1]), None)
+        if i_val is None or i_impl is None or i_val > i_impl:
+            bad.append("validate_attrs(kwargs) is not emitted before `return implementation(...)`: unknown keywords reach the implementation")
+        else:
+            # validation is the first statement of the generated wrapper: nothing may run (or return) before it
+            rendered = "".join(p_[1] if p_[0] == "text" else f"\u27e6{i}\u27e7" for i, p_ in enumerate(flat))
+            lines_ = rendered.splitlines()
+            i_def = next((i for i, l_ in enumerate(lines_) if l_.lstrip().startswith("def ")), None)
+            i_vl = next((i for i, l_ in enumerate(lines_) if f"\u27e6{i_val}\u27e7" in l_), None)
+            if i_def is None or i_vl is None or any(l_.strip() for l_ in lines_[i_def + 1:i_vl]):
+                between_ = [l_.strip() for l_ in lines_[(i_def or 0) + 1:(i_vl or 0)] if l_.strip()]
+                between_ = [flat[int(b_.strip("\u27e6\u27e7"))][1] if b_.startswith("\u27e6") and b_.endswith("\u27e7") and b_.strip("\u27e6\u27e7").isdigit() else b_ for b_ in between_]
+                bad.append(f"the generated wrapper executes `{'; '.join(between_)[:80]}` before validate_attrs(kwargs): a call with an unknown keyword can return (or act) without raising TypeError")
+            cond = flat[i_val][1]
+            if "self.method_args_virtual" not in cond or "check_attrs_match_sig" not in cond:
+                bad.append("validation is not tied to (virtual arguments exist and no virtual **kwargs)")
+            between = "".join(p[1] for p in flat[i_val + 1:i_impl + 1] if p[0] == "text")
+            if "return implementation(" not in between:
+                bad.append("template shape changed")
+    va = [n for n in ast.walk(b.node) if isinstance(n, ast.FunctionDef) and n.name == "validate_attrs"]
+    if not va:
+        bad.append("validate_attrs not defined")
+    else:
+        s = ast.unparse(va[0])
+        guards = [n for n in ast.walk(va[0]) if isinstance(n, ast.If) and any(isinstance(x, ast.Raise) and "TypeError" in ast.unparse(x) for x in ast.walk(n))]
+        exact = [g for g in guards if isinstance(g.test, ast.Compare) and len(g.test.ops) == 1 and isinstance(g.test.ops[0], ast.NotIn)
+                 and ast.unparse(g.test.comparators[0]) == "VALID_KWARGS"]
+        if not exact or "raise TypeError" not in s:
+            bad.append("validate_attrs no longer raises TypeError for every name outside the advertised virtual parameters"
+                       + (f" (guard is `{ast.unparse(guards[0].test)}`)" if guards else ""))
+    if "VALID_KWARGS = {p.name for p in self.method_args_virtual}" not in ast.unparse(b.node):
+        bad.append("VALID_KWARGS is no longer exactly the names of the virtual parameters")
+    if "method.__signature__ = signature_advertised" not in ast.unparse(b.node):
+        bad.append("the advertised signature is not installed as __signature__")
+    rep.oblige(rule, "MethodBuilder.build", not bad, "; ".join(bad))
+    for x in bad:
+        rep.violate(Violation(rule, f"{rule}|{x[:60]}", f"MethodBuilder.build: {x}", f"{b.module.relpath}:{b.node.lineno}", "MethodBuilder.build"))
+
+
 def _check_main(ctx, rep: Report):
     helpers = dict(ctx.helpers)
     init_h = core_impl(ctx.H, "init")
@@ -196,65 +267,7 @@ def _check_main(ctx, rep: Report):
         rep.violate(Violation("C17.NEST", "C17.NEST|filter", f"with_spec_attrs_for: the advertised nested keywords are not exactly the init-enabled attributes (minus existing arguments and the overflow attribute): {detail}",
                               f"{ws.module.relpath}:{ws.node.lineno}", "MethodBuilder.with_spec_attrs_for"))
 
-    # ---- V
-    rep.rules["C17.V"] = "exec template order; validate_attrs rejects unknown names"
-    b = ctx.p.find_function("MethodBuilder.build")
-    execs = [n for n in walk_own(b.node) if isinstance(n, ast.Call) and ast.unparse(n.func) == "exec"]
-    bad = []
-    if not execs:
-        bad.append("exec template not found")
-    else:
-        from .base import with_callees
-        from .c16 import _guards_of
-        tmpl_fn, js = b, [n for n in ast.walk(execs[0]) if isinstance(n, ast.JoinedStr)]
-        if not js:      # the source text may be rendered by a private method of the builder
-            for g_ in with_callees(ctx.p, b, 1):
-                cand = [n for n in ast.walk(g_.node) if isinstance(n, ast.JoinedStr) and "return implementation(" in ast.unparse(n)]
-                if cand and g_ is not b:
-                    tmpl_fn, js = g_, cand
-        flat = []
-        for part in (js[0].values if js else []):
-            if isinstance(part, ast.Constant):
-                flat.append(("text", part.value))
-            else:
-                src_ = ast.unparse(part.value)
-                if isinstance(part.value, ast.Name):
-                    # a placeholder variable: reconstruct "<text> if <guards> else ''" from its assignments
-                    asg = [n for n in walk_own(tmpl_fn.node) if isinstance(n, ast.Assign) and len(n.targets) == 1 and ast.unparse(n.targets[0]) == part.value.id
-                           and isinstance(n.value, ast.Constant) and isinstance(n.value.value, str)]
-                    pos_ = [n for n in asg if "validate_attrs(kwargs)" in n.value.value]
-                    if pos_ and all(n.value.value == "" for n in asg if n not in pos_):
-                        src_ = "'validate_attrs(kwargs)' if " + " and ".join(_guards_of(tmpl_fn.node, pos_[0])) + " else ''"
-                flat.append(("expr", src_))
-        i_val = next((i for i, p in enumerate(flat) if p[0] == "expr" and "validate_attrs(kwargs)" in p[1]), None)
-        i_impl = next((i for i, p in enumerate(flat) if p[0] == "text" and "return implementation(" in p[1]), None)
-        if i_val is None or i_impl is None or i_val > i_impl:
-            bad.append("validate_attrs(kwargs) is not emitted before `return implementation(...)`: unknown keywords reach the implementation")
-        else:
-            cond = flat[i_val][1]
-            if "self.method_args_virtual" not in cond or "check_attrs_match_sig" not in cond:
-                bad.append("validation is not tied to (virtual arguments exist and no virtual **kwargs)")
-            between = "".join(p[1] for p in flat[i_val + 1:i_impl + 1] if p[0] == "text")
-            if "return implementation(" not in between:
-                bad.append("template shape changed")
-    va = [n for n in ast.walk(b.node) if isinstance(n, ast.FunctionDef) and n.name == "validate_attrs"]
-    if not va:
-        bad.append("validate_attrs not defined")
-    else:
-        s = ast.unparse(va[0])
-        guards = [n for n in ast.walk(va[0]) if isinstance(n, ast.If) and any(isinstance(x, ast.Raise) and "TypeError" in ast.unparse(x) for x in ast.walk(n))]
-        exact = [g for g in guards if isinstance(g.test, ast.Compare) and len(g.test.ops) == 1 and isinstance(g.test.ops[0], ast.NotIn)
-                 and ast.unparse(g.test.comparators[0]) == "VALID_KWARGS"]
-        if not exact or "raise TypeError" not in s:
-            bad.append("validate_attrs no longer raises TypeError for every name outside the advertised virtual parameters"
-                       + (f" (guard is `{ast.unparse(guards[0].test)}`)" if guards else ""))
-    if "VALID_KWARGS = {p.name for p in self.method_args_virtual}" not in ast.unparse(b.node):
-        bad.append("VALID_KWARGS is no longer exactly the names of the virtual parameters")
-    if "method.__signature__ = signature_advertised" not in ast.unparse(b.node):
-        bad.append("the advertised signature is not installed as __signature__")
-    rep.oblige("C17.V", "MethodBuilder.build", not bad, "; ".join(bad))
-    for x in bad:
-        rep.violate(Violation("C17.V", f"C17.V|{x[:60]}", f"MethodBuilder.build: {x}", f"{b.module.relpath}:{b.node.lineno}", "MethodBuilder.build"))
+    v_rule(ctx, rep)
     sv = ctx.p.find_function("MethodBuilder._signature_virtual")
     ok = "self.method_args[:-1] + self.method_args_virtual" in ast.unparse(sv.node)
     rep.oblige("C17.KIND", "_signature_virtual", ok)
